@@ -93,6 +93,44 @@ func runC11(c *Ctx, r *Report) {
 	r.Doc("R-C11.12", "a configured timeout is applied: on every path on which the timeout is not known to be non-positive, the work is started with a context derived by WithTimeout from the configured value")
 	r.Doc("R-C11.13", "an unbounded fetch follows every link kind of every fetched entry (adopted from C09): entries reachable only through references past an unretrievable block are still returned")
 	importRules(c, r, "C09", []string{"R-C09.3", "R-C09.4"}, "R-C11.13")
+	r.Doc("R-C11.17", "the task cache only grows while a fetch runs: no deletion from it and no replacement of the map outside the constructor (the gate reads 'present' as 'already requested'; a forgotten hash is requested again by every later entry that links to it)")
+	{
+		cacheF := p.Field("entry", "Fetcher", "tasksCache")
+		nuse := 0
+		for _, fn := range p.Fns {
+			if fn.Orig != nil || !inPkgs(p, fn, "entry") {
+				continue
+			}
+			walkNoLit(fn.Body, func(n ast.Node) bool {
+				switch x := n.(type) {
+				case *ast.CallExpr:
+					if p.Builtin(fn, x) == "delete" && len(x.Args) == 2 {
+						if v, _ := p.FieldSel(fn, x.Args[0]); v == cacheF {
+							nuse++
+							r.Violate("R-C11.17", r.Key("R-C11.17", fn, "delete", ""), x.Pos(), "a hash is deleted from the task cache: the exclusion gate then takes it for unknown and it is requested again")
+						}
+					}
+					if p.Builtin(fn, x) == "clear" && len(x.Args) == 1 {
+						if v, _ := p.FieldSel(fn, x.Args[0]); v == cacheF {
+							nuse++
+							r.Violate("R-C11.17", r.Key("R-C11.17", fn, "clear", ""), x.Pos(), "the task cache is cleared while the fetcher is in use: every hash is requested again")
+						}
+					}
+				case *ast.AssignStmt:
+					for _, l := range x.Lhs {
+						if v, _ := p.FieldSel(fn, l); v == cacheF {
+							nuse++
+							r.Violate("R-C11.17", r.Key("R-C11.17", fn, "replace", ""), x.Pos(), "the task cache is replaced by another map outside the fetcher's constructor: what was requested so far is forgotten")
+						}
+					}
+				}
+				return true
+			})
+		}
+		if nuse == 0 {
+			r.Hold("R-C11.17", r.Key("R-C11.17", nil, "cache-grows", ""), token.NoPos, true, "no deletion from, clearing or replacement of Fetcher.tasksCache (it is set once, in the constructor's literal)")
+		}
+	}
 	r.Doc("R-C11.15", "every acquire and release of the fetcher's slot semaphore moves the same positive weight (a release of less leaks slots until the dispatcher blocks for ever, a release of more panics, an acquire of nothing bounds nothing)")
 	{
 		nsem := 0
@@ -125,6 +163,21 @@ func runC11(c *Ctx, r *Report) {
 					return true
 				}
 				nsem++
+				if cf.Name() == "TryAcquire" {
+					// the only place the dispatcher notices its deadline is the context-taking Acquire: a slot taken
+					// without it needs its own look at the context first
+					seesCtx := false
+					walkNoLit(fn.Body, func(m ast.Node) bool {
+						if c2, ok := m.(*ast.CallExpr); ok && c2.Pos() < call.Pos() {
+							if cf2 := p.Callee(fn, c2); cf2 != nil && cf2.Pkg() != nil && cf2.Pkg().Path() == "context" && (cf2.Name() == "Err" || cf2.Name() == "Done") {
+								seesCtx = true
+							}
+						}
+						return true
+					})
+					r.Check(seesCtx, "R-C11.15", r.Key("R-C11.15", fn, "try-acquire", ""), call.Pos(), "the context is consulted before the non-blocking acquire",
+						"a slot is taken with TryAcquire, which never looks at the context, and nothing before it does: once the deadline has passed the dispatcher keeps starting fetches as long as slots are free, so the load does not end within the configured timeout")
+				}
 				w, isConst := p.constInt(fn, warg)
 				key := r.Key("R-C11.15", fn, "weight", cf.Name())
 				if !isConst {
